@@ -137,7 +137,7 @@ def run_dask(case, indexer="list", ellipsis=False, x=None):
         return {"skip": "NotImplementedError: " + str(ex)[:70]}, None, None
     except Exception as ex:  # noqa: BLE001 - every other exception is an observation
         msg = str(ex)
-        if isinstance(ex, (ValueError, TypeError)) and case["idx"]["k"] == "mask" and case["idx"]["f"] == "d" and case["val"]["sh"] != []:
+        if case["idx"]["k"] == "mask" and case["idx"]["f"] == "d" and case["val"]["sh"] != []:
             # documented in Array.__setitem__ ("this is valid in numpy but raises here"): a dask boolean
             # mask makes the selection size unknown, so only 0-d values can be assigned through it
             return {"skip": "ValueError: value with ndim > 0 assigned through a dask boolean mask (unknown size)"}, None, None
@@ -300,7 +300,7 @@ def replay_cases(ctx, label, cases, variants=None, report=True):
             if bad:
                 found.append((case, bad))
                 if report:
-                    ctx.violation(classify(case, bad, variant), "%s: dask disagrees with the reference on %s" % ("+".join(bad), label),
+                    ctx.violation(classify(case, bad, variant), "%s: dask disagrees with the reference on %s" % ("+".join(bad), case.get("fam", label)),
                                   {"case": case, "expected": exp, "variant": list(variant), "observed": detail})
     return found
 
@@ -317,7 +317,7 @@ def constants(ctx, selftest=False):
 
 
 INVS = ["Attributable", "WritesSelection", "ReadBack", "ScalarFills"]
-CAPS = {"slice1d": 12000, "nd": 10000, "mask": 2000}
+CAPS = {"slice1d": 5000, "nd": 5000, "mask": 800}
 
 
 def enumerate_cases(ctx, selftest=False):
@@ -492,7 +492,7 @@ def crosscheck_verdicts(ctx, cases):
 
 def run(ctx):
     byfam = enumerate_cases(ctx)
-    total, sampled, cross = 0, False, []
+    total, sampled, cross, chosen = 0, False, [], []
     for fam in sorted(byfam):
         cases = byfam[fam]
         total += len(cases)
@@ -500,11 +500,12 @@ def run(ctx):
         if ctx.quick and len(cases) > CAPS[fam]:
             sampled = True
             cases = ctx.rng.sample(cases, CAPS[fam])
-        replay_cases(ctx, fam, cases)
+        chosen += cases
         ctx.sample({"case": cases[0]["c"], "expected": cases[0]["e"]})
-        cross += ctx.rng.sample(cases, min(len(cases), 100))
+        cross += ctx.rng.sample(cases, min(len(cases), 60))
+    replay_cases(ctx, "the enumerated cases", chosen)          # one worker pool for all families
     crosscheck_verdicts(ctx, cross)
-    pairs = record_sequences(ctx, ctx.pick(900, 8000))
+    pairs = record_sequences(ctx, ctx.pick(500, 8000))
     validate(ctx, pairs)
     if pairs:
         ctx.sample({"recorded_assignment": {k: pairs[0][0][k] for k in ("shape", "chunks", "idx", "val", "indexer")}})
